@@ -821,7 +821,59 @@ def enum_atheris(tier):
     yield {'seed': 1000 * seed + k + 1, 'runs': 400000, 'seconds': 240}
 
 
+# ------------------------------------------------------------------ arm: call sequences (state must not leak)
+
+def run_call_sequence(desc):
+  """A drawn sequence of primitive calls over a small pool of strings: every result must equal the
+  definition whatever was called before (memoisation / shared-buffer defects need a repeat or a
+  particular predecessor to show)."""
+  mat = Material(desc['m'], 'c15seq')
+  pool = []
+  for n in desc['lengths']:
+    seq = mat.bits(n)
+    pool.append((seq, n, R.bits_of(seq, n)))
+  repeats = 0
+  seen = set()
+  for op in desc['ops']:
+    kind, pi, a = op
+    seq, n, b = pool[pi % len(pool)]
+    key = (kind, pi % len(pool), a % 7)
+    repeats += key in seen or (kind in ('freq_wrap', 'freq_nowrap') and
+                               ((['freq_wrap', 'freq_nowrap'][kind == 'freq_wrap']), key[1], key[2]) in seen)
+    seen.add(key)
+    if kind in ('freq_wrap', 'freq_nowrap'):
+      m = 1 + a % min(7, n)
+      check_freq(seq, n, m, kind == 'freq_wrap')
+    elif kind == 'split':
+      check_split(seq, n, 1 + a % min(70, n), b)
+    elif kind == 'scatter':
+      check_scatter(seq, 1 + a % 70, R.bits_of(seq, seq.bit_length()))
+    elif kind == 'simple':
+      check_simple(seq, n, b)
+    elif kind == 'overlap':
+      m = 1 + a % 9
+      check_overlapping(seq, m, R.overlapping_runs_of_ones(R.bits_of(seq, seq.bit_length()), m))
+    elif kind == 'rank':
+      rows = [mat2 for mat2 in (seq >> (8 * i) & 0xFFFFFF for i in range(1 + a % 40))]
+      check_rank(rows, direct=False)
+  return {'nt': repeats > 0, 'cls': ['callseq ops=%s' % (len(desc['ops']) if len(desc['ops']) < 4 else '4+')] +
+          (['callseq repeated-or-paired-call'] if repeats else [])}
+
+
+def strat_call_sequence(tier):
+  op = st.tuples(st.sampled_from(['freq_wrap', 'freq_nowrap', 'freq_wrap', 'freq_nowrap', 'split', 'scatter',
+                                  'simple', 'overlap', 'rank']),
+                 st.integers(0, 2), st.integers(0, 6)).map(list)
+  return st.fixed_dictionaries({
+      'm': material,
+      'lengths': st.lists(st.sampled_from([8, 16, 17, 63, 64, 65, 200, 500, 1003, 4000]), min_size=1, max_size=3),
+      'ops': st.lists(op, min_size=2, max_size=10)})
+
+
+
 ARMS = [
+    Arm('call_sequences', run_call_sequence, strategy=strat_call_sequence, quick=6000, thorough=80000,
+        budget=(150, 1500)),
     Arm('strings_exhaustive', run_exhaustive, enumerate=enum_exhaustive, exhaustive=True,
         budget=(600, 3000), weight=3.0,
         doc='every (length, value, m, wrap) up to 12/16 bits: all primitives + documented ValueErrors'),
